@@ -3,7 +3,7 @@ open Lean Pywbem.Proto Pywbem.Model.Pull Pywbem.Model.Iter
 
 /-! C15 driver.  Input line:
   {"use": null|bool, "nss":[..], "disabled": bool, "events":[ev,…]}
-  ev = {"ev":"call","fam":0..6,"ns":n,"terr":int|null,"objs":[..],"max":A,"timeout":A,
+  ev = {"ev":"call","fam":0..6,"ns":n,"terr":int|null,"objs":[..],"max":A,"timeout":A,"maxform":F,"toform":F,
         "lang":0|1|2,"query":bool,"coe":bool,"rqrc":bool}          A = null | int | "x" (non-int type)
      | {"ev":"next","g":i} | {"ev":"close","g":i} | {"ev":"drop","g":i}
      | {"ev":"throw","g":i,"code":int|null}      (null: a non-CIM exception, modelled as OSError)
@@ -21,6 +21,16 @@ def intArg (j : Json) (k : String) : IntArg :=
   | .str s => match s.toInt? with | some i => .int i | none => .other
   | v => match jsonToInt? v with | some i => .int i | none => .other
 
+/-- an integer argument with the FORM it was given in ("u32" | "u64" | "bool" | absent), canonicalised by the model -/
+def pyInt (j : Json) (k form : String) : PyInt :=
+  match intArg j k, getStr j form with
+  | .int i, some "u32" => .uint32 i
+  | .int i, some "u64" => .uint64 i
+  | .int i, some "bool" => .bool (i != 0)
+  | .int i, _ => .int i
+  | .none, _ => .none
+  | .other, _ => .other
+
 def langOf (n : Nat) : Lang :=
   match n with | 0 => .none | 1 => .fql | _ => .other
 
@@ -29,7 +39,7 @@ def parseEv (j : Json) : Option Ev :=
   | some "call" => some (.call {
       fam := famOf ((getNat j "fam").getD 0), ns := (getNat j "ns").getD 0,
       tradErr := getNat j "terr", tradObjs := (getArr j "objs").filterMap jsonToNat?,
-      max := intArg j "max", timeout := intArg j "timeout", lang := langOf ((getNat j "lang").getD 0),
+      max := (pyInt j "max" "maxform").canon, timeout := (pyInt j "timeout" "toform").canon, lang := langOf ((getNat j "lang").getD 0),
       query := (getBool j "query").getD false, coe := (getBool j "coe").getD false,
       rqrc := (getBool j "rqrc").getD false, coeType := (getBool j "coetype").getD false,
       filterType := (getBool j "filtertype").getD false, srcIsClass := (getBool j "srcclass").getD false })
